@@ -8,7 +8,8 @@
 (*      that (line, col, context-as-parsed o) is a correct answer;         *)
 (*                                                                         *)
 (*  an input (NewInput) handed to a lexer/parser of the library:           *)
-(*      ErrPos(line, col, matches, cur) for the *parse.Error it produced.  *)
+(*      ErrPos(line, col, matches, cur, same) for the *parse.Error it     *)
+(*      produced.                                                          *)
 (*      matches lists the offsets k in 0..len for which parse.Position     *)
 (*      (input, k) returns exactly the error's (Line, Column, Context) --  *)
 (*      the harness only tabulates that equality.  The statement demands:  *)
@@ -55,8 +56,12 @@ Pos(off, line, col, o) ==
 
 ToSet(s) == {s[j] : j \in DOMAIN s}
 
-ErrPos(line, col, matches, cur) ==
+\* same: a second parser over the same input that is asked for its error (Err()) ONLY at this report hands out the same line,
+\* column and context -- what an error carries is decided by where the parser stopped, not by which reports the caller looked
+\* at before
+ErrPos(line, col, matches, cur, same) ==
     /\ subject = "input"
+    /\ same
     /\ matches # <<>>                                                         \* that byte lies inside the input
     /\ \A j \in DOMAIN matches : matches[j] >= 0 /\ matches[j] <= ilen
     /\ (valid => \E j \in DOMAIN matches : LineColOK(rt, text, matches[j], line, col))
